@@ -241,7 +241,10 @@ def replay(w):
 
 def _replay(w):
     if w['cond'] == 'coding':
-        probs, vals = coding_probs(w['K'], w['rename'], w['heur'])
+        try:
+            probs, vals = coding_probs(w['K'], w['rename'], w['heur'])
+        except symx.HarnessError as e:
+            return {'reproduced': False, 'what': f'not decidable on this build: {e}'}
         if probs:
             return {'reproduced': True, 'signature': 'C02:batch-coding', 'what': probs[0]}
         return {'reproduced': False, 'what': f'batch score equals the estimator on an injective coding: {vals}'}
